@@ -93,7 +93,7 @@ def make_sampler(kind='gauss', n_dim=2, n_live=100, n_networks=0, n_batch=50, bl
         kw['pass_dict'] = pass_dict
     if prior is None:
         prior = identity_prior
-    else:
+    elif not callable(prior):
         kw.pop('n_dim')
     if n_networks > 0:
         kw['neural_network_kwargs'] = dict(hidden_layer_sizes=(16, 8), max_iter=200)
